@@ -379,3 +379,31 @@ Proof.
   intros Hv Hp e He. pose proof (log_meaning kind sched v0 lo0 md progs Hv Hp e He) as H.
   unfold ev_ok in H. split; intros u Ho; rewrite Ho in H; tauto.
 Qed.
+
+(* ------------------------------------------------------------------ F14: OS-thread agent instance *)
+Definition f14_progs (t : nat) : list sop :=
+  match t with 0%nat => [TimedAcquire 1] | 1%nat => [Release 1] | _ => [] end.
+Definition all_os (_ : nat) : akind := OsThr.
+
+(* X = thread 0: try_acquire_for on an empty semaphore; Y = thread 1: release(1) before the
+   deadline.  The state reached is stuck whatever the clock says: a permit is available, the
+   timed acquirer has not returned and cannot (it needs the spinlock once its deadline passed),
+   release() has not returned either (inside default_agent::resume, holding the spinlock). *)
+Lemma os_timed_acquire_deadlock_refuted :
+  exists sched, let c := sem_run all_os sched 0 0 0 f14_progs in
+    stuck all_os (fst c) (snd c) /\ slog (fst c) = [] /\ value (fst c) = 1 /\ released (fst c) = 1 /\
+    pc (snd c 0%nat) = TSleep 1 /\ pc (snd c 1%nat) = ResWait 0 true 0 /\ holder (fst c) = Some 1%nat.
+Proof.
+  exists [(0%nat, false); (1%nat, false)]. cbv zeta.
+  set (c := sem_run all_os _ 0 0 0 f14_progs). vm_compute in c. subst c. cbn [fst snd].
+  split; [|repeat split; reflexivity].
+  intros t o. destruct t as [|[|t]]; destruct o; vm_compute; reflexivity.
+Qed.
+
+(* the same program on pika tasks cannot get stuck there: the same two steps leave the lock free
+   and the waiter signalled; after the deadline it takes the permit and returns true *)
+Lemma task_timed_acquire_released_example :
+  let c := sem_run (fun _ => Task) [(0%nat, false); (1%nat, false); (0%nat, false); (0%nat, true)] 0 0 0 f14_progs in
+  value (fst c) = 0 /\ acquired (fst c) = 1 /\ map ev_res (slog (fst c)) = [true; true] /\
+  map ev_tid (slog (fst c)) = [0%nat; 1%nat] /\ pc (snd c 0%nat) = Idle /\ todo (snd c 0%nat) = [].
+Proof. vm_compute. repeat split; reflexivity. Qed.
